@@ -78,6 +78,10 @@ int main(int argc, char** argv) {
                     Q += v; M0 += v * y; E += v * (double)forces[bb * s.n + x]; Qo += vo; M1 += vo * y;
                     if (y < mrg || y + mrg >= s.n) edge += std::fabs(v);
                 }
+                {   // (after a few rate jumps the generated bunch may have wandered out of the grid in position: nothing left to weigh the kick with)
+                    const double sgy0 = std::min(sg[bb], (0.4 * s.n - 5) / 5.5);
+                    if (!(Q > 0.05 * 6.283 * am[bb] * sg[bb] * sgy0)) { M.ev("centroid_checks_skipped_bunch_left_grid"); continue; }     // less than 5 % of the bunch is still on the grid
+                }
                 if (!(Q > 0) || edge > 1e-7 * Q) { M.ev("centroid_checks_skipped_border_charge"); continue; }
                 double moved = M1 / Qo - M0 / Q, want = -E / Q;
                 double tol = 4e-7 * s.n + 1e-3 * std::fabs(want);
